@@ -186,6 +186,7 @@ func HarnessC05Writers() {
 	out := verifTempPath("c05.updog")
 	var w verifWriter
 	var db, tempDB *bbolt.DB
+	var iw *IndexWriter
 	var err error
 	tag := "C05"
 	switch which {
@@ -198,7 +199,7 @@ func HarnessC05Writers() {
 		if err != nil {
 			panic(err)
 		}
-		iw := NewIndexWriter("")
+		iw = NewIndexWriter(verifTempPath("c05_second.updog"))
 		w = verifDBWriter{iw, db}
 	case 2:
 		tag = "C05 big writer"
@@ -229,6 +230,21 @@ func HarnessC05Writers() {
 		db.Close()
 	}
 	verifObserve(out, rows, tag)
+	if iw != nil {
+		// writing an index does not use the writer up: one more row, then Flush to the
+		// writer's own file yields the index of all rows added so far
+		extra := verifRow{kind: 2}
+		id, err := iw.AddRow(extra.values(len(rows)))
+		verifAssert(err == nil && id == uint32(len(rows)), tag+": AddRow after a first write must continue the row ids")
+		all := append(append([]verifRow(nil), rows...), extra)
+		verifAssert(iw.Flush() == nil, tag+": Flush after WriteToBoltDatabase failed")
+		idx, err := OpenIndex(verifTempPath("c05_second.updog"))
+		verifAssert(err == nil, tag+": the file of a second write cannot be opened")
+		if err == nil {
+			verifCheckIndex(idx, all, tag+" (second write of the same writer)")
+			idx.Close()
+		}
+	}
 	verifReach("end")
 }
 
